@@ -103,7 +103,7 @@ theorem lkInv_micro {s s' : State} {th : Th} {ch ch2 : Nat} {op : MOp} {rest : L
   intro th' op' k hm hk
   by_cases e : th' = th
   · subst e
-    rcases microStep_prog hs with ⟨pushed, hp, hpu⟩ | ⟨e, t, hp⟩ | hp
+    rcases microStep_prog hs with ⟨pushed, hp, hpu⟩ | ⟨⟨e, t, hp⟩, -⟩ | ⟨hp, -⟩
     · rw [hp] at hm
       rcases List.mem_append.1 hm with h1 | h1
       · exact h th' op k (by rw [hprog]; exact List.mem_cons_self) (pushes_locKey (hpu _ h1) hk)
@@ -224,7 +224,7 @@ theorem hrInv_micro {s s' : State} {th : Th} {ch ch2 : Nat} {op : MOp} {rest : L
   by_cases e : th' = th
   · subst e
     exfalso
-    rcases microStep_prog hs with ⟨pushed, hp, hpu⟩ | ⟨e, t, hp⟩ | hp
+    rcases microStep_prog hs with ⟨pushed, hp, hpu⟩ | ⟨⟨e, t, hp⟩, -⟩ | ⟨hp, -⟩
     · rw [hp] at hm
       rcases List.mem_append.1 hm with h1 | h1
       · exact pushes_hrTrue (hpu _ h1)
